@@ -69,6 +69,25 @@ class Path:
         return f"[{c}] -> {self.kind} {self.value_text()}"
 
 
+class _Simp(ast.NodeTransformer):
+    """[f(v) for v in [a, b]] -> [f(a), f(b)]  (arises when a temporary holding a list display is substituted)"""
+    def _comp(self, node):
+        self.generic_visit(node)
+        if len(node.generators) == 1 and not node.generators[0].ifs and isinstance(node.generators[0].iter, (ast.List, ast.Tuple)) \
+                and isinstance(node.generators[0].target, ast.Name) and not any(isinstance(x, ast.Starred) for x in node.generators[0].iter.elts) \
+                and isinstance(node, (ast.ListComp, ast.GeneratorExp)) and len(node.generators[0].iter.elts) <= 4:
+            v = node.generators[0].target.id
+            return ast.copy_location(ast.List(elts=[norm._Subst({v: x}).visit(copy.deepcopy(node.elt)) for x in node.generators[0].iter.elts], ctx=ast.Load()), node)
+        return node
+    visit_ListComp = _comp
+
+
+def _simplify(e):
+    if e is None:
+        return None
+    return _Simp().visit(e)
+
+
 def _subst(e, env):
     if e is None:
         return None
@@ -114,13 +133,15 @@ class Summariser:
         self.bound = bound
         self.out: list[Path] = []
         self.in_loop = in_loop
+        self.mutated: set[str] = set()
 
     def run(self, stmts) -> list[Path]:
+        self.mutated = _mutated_names(stmts)
         self._block(list(stmts), Path(), lambda p: self._end(p, "fall", None, None))
         return self.out
 
     def _end(self, p: Path, kind, value, node):
-        q = Path(list(p.tests), list(p.effects), kind, value, dict(p.env), node)
+        q = Path(list(p.tests), [_simplify(e) for e in p.effects], kind, _simplify(value) if value is not None else None, dict(p.env), node)
         self.out.append(q)
         if len(self.out) > self.bound:
             raise PathBound()
@@ -200,6 +221,17 @@ class Summariser:
         if isinstance(s, ast.AugAssign):
             q = self._fork(p)
             v = _split_walrus(s.value, q.env)
+            if isinstance(s.target, ast.Name) and s.target.id in q.env and _is_path(q.env[s.target.id]) and not isinstance(q.env[s.target.id], ast.Name):
+                # x = obj.path ; x += v : (for a list) an in-place change of the object the path reaches
+                ref = copy.deepcopy(q.env[s.target.id])
+                for n_ in ast.walk(ref):
+                    if isinstance(n_, (ast.Subscript, ast.Attribute)) and n_ is ref:
+                        n_.ctx = ast.Store()
+                eff = ast.copy_location(ast.AugAssign(target=ref, op=s.op, value=v), s)
+                q.effects.append(eff)
+                _freeze(q.env, s, inplace=u(ref))
+                nxt(q)
+                return
             if isinstance(s.target, ast.Name):
                 old = q.env.get(s.target.id, ast.Name(id=s.target.id, ctx=ast.Load()))
                 q.env[s.target.id] = ast.BinOp(left=copy.deepcopy(old), op=s.op, right=v)
@@ -262,6 +294,7 @@ class Summariser:
             marker = ast.Call(func=ast.Name(id="in_loop_", ctx=ast.Load()), args=[hdr] + ([copy.deepcopy(s.target)] if isinstance(s, ast.For) else []), keywords=[])
             if any(isinstance(n, (ast.Return, ast.Raise)) for x in s.body for n in ast.walk(x)):
                 sub = Summariser(self.bound, in_loop=True)
+                sub.mutated = self.mutated
                 start = Path(env=dict(inner_env))
                 try:
                     sub._block(list(s.body), start, lambda r: sub._end(r, "fall", None, None))
@@ -292,6 +325,7 @@ class Summariser:
             guarded = None
             try:
                 sub = Summariser(self.bound, in_loop=self.in_loop)
+                sub.mutated = self.mutated
                 sub._block(list(s.body), self._fork(p), lambda r: sub._end(r, "fall", None, None))
                 best = max(sub.out, key=lambda r: len(r.effects)) if sub.out else None
                 if best is not None:
@@ -329,6 +363,10 @@ class Summariser:
     def _bind(self, t, v, q: Path, s):
         if isinstance(t, ast.Name):
             # v was computed with the previous bindings substituted; a bare name left in it denotes a value on entry
+            if t.id in self.mutated and not _is_path(v) and not isinstance(v, ast.List) and not norm.is_scalar(v):
+                # an accumulator: a freshly built object that is filled through its name keeps the name
+                q.env.pop(t.id, None)
+                return
             q.env[t.id] = v
             return
         if isinstance(t, (ast.Tuple, ast.List)):
@@ -373,7 +411,48 @@ def _canon_neg(e):
     return None
 
 
-def _freeze(env: dict, stmt: ast.AST) -> None:
+def _is_path(e) -> bool:
+    """an access path to an existing object: name / attribute / subscript chain (whatever the index expression)"""
+    while True:
+        if isinstance(e, (ast.Attribute, ast.Subscript)):
+            e = e.value
+        elif isinstance(e, ast.Call) and isinstance(e.func, ast.Attribute) and e.func.attr == "get" and len(e.args) in (1, 2):
+            e = e.func.value            # d.get(k): an element already in d
+        else:
+            break
+    return isinstance(e, ast.Name)
+
+
+def _root_name(e):
+    while isinstance(e, (ast.Subscript, ast.Attribute)):
+        e = e.value
+    return e.id if isinstance(e, ast.Name) else None
+
+
+def _mutated_names(stmts) -> set[str]:
+    """local names through which an object is mutated: x[k] = v, x.attr = v, x += v, x[..].append(..) (not read-only)"""
+    out = set()
+    for s_ in stmts:
+        for n in ast.walk(s_):
+            if isinstance(n, (ast.Subscript, ast.Attribute)) and isinstance(n.ctx, (ast.Store, ast.Del)):
+                r = _root_name(n.value)
+                if r:
+                    out.add(r)
+            if isinstance(n, ast.AugAssign):
+                r = _root_name(n.target)
+                if r:
+                    out.add(r)
+            if isinstance(n, ast.Call) and isinstance(n.func, ast.Attribute) \
+                    and n.func.attr in ("append", "extend", "add", "update", "pop", "remove", "insert", "clear",
+                                        "setdefault", "discard", "sort", "reverse", "popitem", "appendleft"):
+                r = _root_name(n.func.value)
+                if r:
+                    out.add(r)
+    out.discard("self")
+    return out
+
+
+def _freeze(env: dict, stmt: ast.AST, inplace: str | None = None) -> None:
     """after an effect that mutates a container / attribute, bindings computed from it denote the value *before* the
     effect: wrap them in old_(..) so that they are not confused with the same expression evaluated afterwards.
     `stmt` is the ORIGINAL statement (calls that only appear through substituted temporaries are not new effects);
@@ -397,6 +476,8 @@ def _freeze(env: dict, stmt: ast.AST) -> None:
     for k, v in list(env.items()):
         if isinstance(v, ast.Call) and u(v.func) == "old_":
             continue
+        if inplace is not None and u(v) == inplace:
+            continue            # an alias of the object that was changed in place still denotes that object
         if norm.is_reference(v) and not any(isinstance(n, ast.Subscript) for n in ast.walk(v)) and not any(isinstance(n, ast.Attribute) and (u(n.value), n.attr) in attrs for n in ast.walk(v)):
             continue            # an alias keeps denoting the same object
         hit = False
